@@ -34,7 +34,7 @@ FUNCS = [
 
 # matcher kinds (must match sim::MK in shape.hpp)
 MK = ['ANY', 'VAL', 'EQ', 'NE', 'LT', 'LE', 'GT', 'GE', 'NOTEQ', 'ANYOF', 'TYPEDANY',
-      'RINC2', 'RINC11', 'RIS', 'RSTART', 'RENDS', 'RPERM', 'RALL', 'RNONE', 'RANY']
+      'RINC2', 'RINC11', 'RIS', 'RSTART', 'RENDS', 'RPERM', 'RALL', 'RNONE', 'RANY', 'RNOTIS']
 # with predicate kinds (sim::WK)
 WK = ['LE', 'GE', 'NE', 'EQ', 'LT12', 'NESNAP', 'LTMAC']
 # bounds forms (sim::BF)
@@ -60,7 +60,7 @@ BOUNDS = {
     'T0': (0, 0, '.TIMES(0)'),
 }
 # return kinds (sim::RK)
-RK = ['NONE', 'VAL', 'LRVAL', 'THROW_STD', 'THROW_INT', 'REF_PARAM', 'REF_CELL', 'STR', 'LRSTR', 'CREF_PARAM', 'CREF_CELL', 'CREF_CAPT', 'STR_PARAM', 'LRSTR_VAR', 'PAIR', 'LRPAIR_VAR', 'LRTHROW_VAR']
+RK = ['NONE', 'VAL', 'LRVAL', 'THROW_STD', 'THROW_INT', 'REF_PARAM', 'REF_CELL', 'STR', 'LRSTR', 'CREF_PARAM', 'CREF_CELL', 'CREF_CAPT', 'STR_PARAM', 'LRSTR_VAR', 'PAIR', 'LRPAIR_VAR', 'LRTHROW_VAR', 'THROW_CSTR']
 
 
 def matcher_text(kind, argk, vi):
@@ -81,7 +81,8 @@ def matcher_text(kind, argk, vi):
                 'RPERM': 'trompeloeil::range_is_permutation(%s + 1, %s, %s)' % (v, v, v),
                 'RALL': 'trompeloeil::range_all_of(trompeloeil::ge(%s))' % v,
                 'RNONE': 'trompeloeil::range_none_of(%s)' % v,
-                'RANY': 'trompeloeil::range_any_of(%s)' % v}[kind]
+                'RANY': 'trompeloeil::range_any_of(%s)' % v,
+                'RNOTIS': '!trompeloeil::range_is(%s, %s + 1, %s)' % (v, v, v)}[kind]
     if kind == 'VAL':
         return v
     if kind in ('EQ', 'NE', 'LT', 'LE', 'GT', 'GE'):
@@ -131,7 +132,7 @@ def gen_shape(rng, sid, fn, force=None):
         elif ak == 'str':
             kind = rng.choice(['ANY', 'VAL', 'EQ', 'NE', 'ANYOF', 'TYPEDANY'])
         elif ak == 'vec':
-            kind = rng.choice(['ANY', 'TYPEDANY', 'RINC2', 'RINC2', 'RINC11', 'RIS', 'RSTART', 'RENDS', 'RPERM', 'RALL', 'RNONE', 'RANY'])
+            kind = rng.choice(['ANY', 'TYPEDANY', 'RINC2', 'RINC2', 'RINC11', 'RIS', 'RSTART', 'RENDS', 'RPERM', 'RALL', 'RNONE', 'RANY', 'RNOTIS', 'RNOTIS'])
         elif ak in ('intref', 'cint'):
             kind = rng.choice(['ANY', 'VAL', 'EQ', 'NE', 'LT', 'GE', 'TYPEDANY'])
         else:
@@ -178,9 +179,9 @@ def gen_shape(rng, sid, fn, force=None):
     if forbidding:
         rk = 'NONE'
     elif f['ret'] == 'void':
-        rk = rng.choice(['NONE', 'NONE', 'NONE', 'THROW_STD', 'THROW_INT', 'LRTHROW_VAR'])
+        rk = rng.choice(['NONE', 'NONE', 'NONE', 'THROW_STD', 'THROW_INT', 'LRTHROW_VAR', 'THROW_CSTR'])
     elif f['ret'] == 'int':
-        rk = rng.choice(['VAL'] * 5 + ['LRVAL'] * 2 + ['THROW_STD', 'THROW_INT', 'LRTHROW_VAR'])
+        rk = rng.choice(['VAL'] * 5 + ['LRVAL'] * 2 + ['THROW_STD', 'THROW_INT', 'LRTHROW_VAR', 'THROW_CSTR'])
     elif f['ret'] == 'ref':
         rk = rng.choice(['REF_PARAM', 'REF_CELL', 'REF_CELL', 'THROW_STD'])
     elif f['ret'] == 'pair':
@@ -265,6 +266,7 @@ def render(d, scoped=False):
                 'THROW_STD': '.THROW(sim::thr_std(x.id, %s))' % snap_plain,
                 'THROW_INT': '.THROW(sim::thr_int(x.id, x.snap))',
                 'LRTHROW_VAR': '.LR_THROW(sim::thr_var(x.id, x.snap, x.exc))',
+                'THROW_CSTR': '.THROW(sim::thr_cstr(x.id, x.snap))',
                 'REF_PARAM': '.LR_RETURN(sim::retref(x.id, x.snap, _1, %s))' % addr,
                 'REF_CELL': '.LR_RETURN(sim::retref(x.id, x.snap, *x.cell, %s))' % addr,
                 'CREF_PARAM': '.RETURN(sim::retcref(x.id, x.snap, _1, %s))' % addr,
@@ -433,11 +435,11 @@ def main():
 # MockWide: one mock function per arity 0..15 whose parameter at position k cycles through the passing modes
 # (value, &, const&, &&, pointer, move-only), plus const and interface-implementing variants (C09).
 def gen_wide(out):
-    MODES = ['val', 'ref', 'cref', 'rref', 'ptr', 'uptr']
-    TYPES = {'val': 'int', 'ref': 'int&', 'cref': 'const int&', 'rref': 'int&&', 'ptr': 'int*', 'uptr': 'std::unique_ptr<sim::Tracked>'}
+    MODES = ['val', 'ref', 'cref', 'rref', 'ptr', 'uptr', 'pref']
+    TYPES = {'val': 'int', 'ref': 'int&', 'cref': 'const int&', 'rref': 'int&&', 'ptr': 'int*', 'uptr': 'std::unique_ptr<sim::Tracked>', 'pref': 'int*&'}
 
     def modes_for(n, shift=0):
-        return [MODES[(k + n + shift) % 6] for k in range(1, n + 1)]
+        return [MODES[(k + n + shift) % len(MODES)] for k in range(1, n + 1)]
 
     L = ['// generated by tools/gen_shapes.py -- do not edit', '#include "world.hpp"', '#include "wide.hpp"', 'namespace sim {']
     L.append('struct IWide { virtual ~IWide() = default; virtual int iw3(int, int&, const int&) = 0; virtual int iw5(int*, int, int&, const int&, int&&) const = 0; };')
@@ -471,12 +473,14 @@ def gen_wide(out):
                 decl.append('  int a%d = %s; R.mode[%d] = %s; R.want_val[%d] = a%d; R.want_addr[%d] = &a%d;' % (k, v, k, 'WM_REF' if md == 'ref' else 'WM_CREF', k, k, k, k)); callargs.append('a%d' % k)
             elif md == 'rref':
                 decl.append('  int a%d = %s; R.mode[%d] = WM_RREF; R.want_val[%d] = a%d; R.want_addr[%d] = &a%d;' % (k, v, k, k, k, k, k)); callargs.append('std::move(a%d)' % k)
+            elif md == 'pref':
+                decl.append('  int a%d = %s; int* p%d = &a%d; R.mode[%d] = WM_PREF; R.want_val[%d] = a%d; R.want_addr[%d] = &p%d;' % (k, v, k, k, k, k, k, k, k)); callargs.append('p%d' % k)
             elif md == 'ptr':
                 decl.append('  int a%d = %s; R.mode[%d] = WM_PTR; R.want_val[%d] = a%d; R.want_addr[%d] = &a%d;' % (k, v, k, k, k, k, k)); callargs.append('&a%d' % k)
             else:
                 decl.append('  std::unique_ptr<Tracked> a%d(new Tracked(%s)); R.mode[%d] = WM_UPTR; R.want_val[%d] = a%d->v; R.want_addr[%d] = a%d.get();' % (k, v, k, k, k, k, k)); callargs.append('std::move(a%d)' % k)
         body += decl
-        wps = ', '.join(('sim::wpr(_%d)' if modes[k - 1] == 'ref' else 'sim::wp(_%d)') % k for k in range(1, n + 1))
+        wps = ', '.join(('sim::wpr(_%d)' if modes[k - 1] == 'ref' else 'sim::wpp(_%d)' if modes[k - 1] == 'pref' else 'sim::wp(_%d)') % k for k in range(1, n + 1))
         wild = ', '.join(['trompeloeil::_'] * n)
         stmt = 'auto e = NAMED_REQUIRE_CALL(m, %s(%s))' % (fname, wild)
         stmt += '.WITH(sim::wide_log(rp, 0%s))' % (', ' + wps if n else '')
